@@ -253,10 +253,81 @@ def numbers_rule(src: Path) -> str:
             "Definition foreign_rule_in_source : foreign_rule := ThroughIds.\n")
 
 
+# ---------------------------------------------------------------------------------------------
+# integer fields of the scorers' configuration classes (block sizes, batch sizes, neighbourhood limits ...)
+# ---------------------------------------------------------------------------------------------
+
+
+def is_int_annotation(ann: ast.expr) -> bool:
+    """`int`, `int | None`, `Optional[int]`, `Annotated[int, ...]`, `PositiveInt` ... -- anything that mentions an integer type
+    outside a Literal[...]"""
+    todo = [ann]
+    while todo:
+        n = todo.pop()
+        if isinstance(n, ast.Subscript) and (dotted(n.value) or "").split(".")[-1] == "Literal":
+            continue
+        if isinstance(n, ast.Constant) and isinstance(n.value, str):          # a quoted annotation
+            try:
+                todo.append(ast.parse(n.value, mode="eval").body)
+            except SyntaxError:
+                raise TranslateError(f"line {ann.lineno}: unreadable quoted annotation {n.value!r}")
+            continue
+        name = (dotted(n) or "").split(".")[-1] if isinstance(n, (ast.Name, ast.Attribute)) else ""
+        if name == "int" or name.endswith("Int"):
+            return True
+        todo.extend(ast.iter_child_nodes(n))
+    return False
+
+
+def config_int_fields(src: Path) -> list[tuple[str, str]]:
+    """(declaring class, field) for every integer field declared in a configuration class of the scorer files: the classes named
+    `*Config*` and every class a `config:` annotation of those files refers to, with their bases as far as they are defined in
+    the scorer files (pydantic BaseModel / object end the walk; any other unresolvable base fails closed)."""
+    classes: dict[str, ast.ClassDef] = {}
+    wanted: set[str] = set()
+    for rel in SCAN:
+        tree = parse(src / "lenskit" / rel)
+        for cls in [n for n in ast.walk(tree) if isinstance(n, ast.ClassDef)]:
+            if cls.name in classes and "Config" in cls.name:
+                raise TranslateError(f"{rel}: configuration class {cls.name} defined twice in the scorer files")
+            classes.setdefault(cls.name, cls)
+            if "Config" in cls.name:
+                wanted.add(cls.name)
+            for st in cls.body:
+                if isinstance(st, ast.AnnAssign) and isinstance(st.target, ast.Name) and st.target.id == "config":
+                    ref = dotted(st.annotation)
+                    if ref is None:
+                        raise TranslateError(f"{rel}:{cls.name}: `config:` annotation is not a class name: {ast.unparse(st.annotation)}")
+                    wanted.add(ref.split(".")[-1])
+    out, done, todo = [], set(), sorted(wanted)
+    while todo:
+        name = todo.pop(0)
+        if name in done:
+            continue
+        done.add(name)
+        if name not in classes:
+            raise TranslateError(f"configuration class {name} is not defined in the scorer files")
+        for b in classes[name].bases:
+            bn = (dotted(b) or ast.unparse(b)).split(".")[-1]
+            if bn in ("BaseModel", "object"):
+                continue
+            if bn not in classes:
+                raise TranslateError(f"configuration class {name}: base {bn} is not defined in the scorer files")
+            todo.append(bn)
+        for st in classes[name].body:
+            if isinstance(st, ast.AnnAssign) and isinstance(st.target, ast.Name) and is_int_annotation(st.annotation):
+                out.append((name, st.target.id))
+    return sorted(out)
+
+
 def translate(src: Path) -> dict[str, str]:
     sites, calls = extract(src)
     text = HEADER
     text += "Definition sites : list site :=\n  [ " + "\n  ; ".join(sites) + " ].\n\n"
     text += "(* the scorer entry points inspected (every class of the scorer files that defines __call__(…, items)) *)\n"
-    text += "Definition entry_points : list (string * string) :=\n  [ " + "\n  ; ".join(calls) + " ].\n"
+    text += "Definition entry_points : list (string * string) :=\n  [ " + "\n  ; ".join(calls) + " ].\n\n"
+    text += ("(* every integer field declared in a configuration class of the scorer files (declaring class, field): each may gate an\n"
+             "   internal path (blocks, batches, truncated neighbourhoods) and must be among the fields the generator sets to small values *)\n")
+    text += ("Definition config_int_fields : list (string * string) :=\n  [ "
+             + "\n  ; ".join(f"({cstr(c)}, {cstr(f)})" for c, f in config_int_fields(src)) + " ].\n")
     return {"Gen/C04_sites.v": text, "Gen/C04_numbers.v": numbers_rule(src)}
